@@ -65,6 +65,9 @@ pub fn c12_scenario() -> Scenario {
             Touch { doc: "b.td", text: "class BufB;\nclass BufB2;\ndef bb : Nope;\n".into() },
             // the included file includes the root back: the walk reaches the edited document again
             Touch { doc: "b.td", text: "include \"a.td\"\nclass BufB;\n".into() },
+            // the editor's buffer is empty (everything deleted) while the file on disk is not
+            Touch { doc: "b.td", text: String::new() },
+            Touch { doc: "a.td", text: String::new() },
         ],
     }
 }
@@ -293,17 +296,17 @@ impl Engine for C12 {
     }
     fn rule(&self, tier: Tier) -> String {
         format!(
-            "every session of <= {} messages over {{a.td := 4 texts (three include b.td, one does not, so that b.td leaves and re-enters the workspace while open), b.td := 4 texts, one of which includes a.td back so that the include walk reaches the edited document again}}, the on-disk b.td declares DiskB and the editor's b.td declares BufB / BufB2 (a's texts refer to one of them), \
+            "every session of <= {} messages over {{a.td := 5 texts (three include b.td, one does not, so that b.td leaves and re-enters the workspace while open), b.td := 5 texts, one of which includes a.td back so that the include walk reaches the edited document again; both documents also have the empty text}}, the on-disk b.td declares DiskB and the editor's b.td declares BufB / BufB2 (a's texts refer to one of them), \
              first message to a document = didOpen, later = didChange; after EVERY message the latest publications and the documentSymbol response of every open document must match the reference session model \
              (texts = disk overlaid by open buffers, root = last touched document). states = distinct (buffers, root) configurations; transitions = messages; non-trivial = sessions of >= 2 messages.",
-            tier.pick(4, 6)
+            tier.pick(4, 5)
         )
     }
     fn assumptions(&self) -> Vec<String> {
         vec!["the file system is a directory of small files written by the harness; real editors and disk faults are out of scope".into()]
     }
     fn explore(&self, tier: Tier, ctx: &mut Ctx) {
-        explore(&c12_scenario(), tier.pick(4, 6), ctx);
+        explore(&c12_scenario(), tier.pick(4, 5), ctx);
     }
     fn eval_case(&self, case: &Value) -> Vec<Failure> {
         let dir = session_dir("C12", 99);
